@@ -155,6 +155,14 @@ impl<R> PMTiles<R> {
     }
 }
 
+#[cfg(feature = "verif")]
+impl<R> PMTiles<R> {
+    /// Read-only view of the sizes of the builder's internal maps (verification hook H1).
+    pub fn verif_store_stats(&self) -> crate::verif::StoreStats {
+        self.tile_manager.verif_store_stats()
+    }
+}
+
 impl<R: Read + Seek> PMTiles<R> {
     /// Get data of a tile by its id.
     ///
